@@ -128,7 +128,13 @@ func TestC07(t *testing.T) {
 	}
 	close(ch2)
 	wg.Wait()
-	slowOkWithinTimeout(run) // alone: it measures a real 5.5 s answer
+	// alone (nothing else runs meanwhile): two real-time probes, side by side
+	var swg sync.WaitGroup
+	for _, sc := range [][3]time.Duration{{5500 * time.Millisecond, 8 * time.Second, 30 * time.Second}, {10500 * time.Millisecond, 14 * time.Second, 40 * time.Second}} {
+		swg.Add(1)
+		go func(sc [3]time.Duration) { defer swg.Done(); slowOkWithinTimeout(run, sc[0], sc[1], sc[2]) }(sc)
+	}
+	swg.Wait()
 	for i := 0; i < 3; i++ {
 		recoveryRacesProxyFailure(run, i)
 	}
@@ -551,11 +557,11 @@ func oneHistory(run *rep.Run, rng *rand.Rand, h, nsteps int) {
 // slowOkWithinTimeout: "slow ok" for a check_timeout the validation accepts (up to 30 s): the
 // backend answers its health check 200 after 5.5 s, check_timeout is 8 s. The latest check
 // reached it and got a 2xx answer, so the endpoint is healthy.
-func slowOkWithinTimeout(run *rep.Run) {
+func slowOkWithinTimeout(run *rep.Run, answerAfter, cTimeout, cInterval time.Duration) {
 	b := backend.NewStd("slow", []string{"m"}, nil)
 	defer b.Close()
 	w, err := world.Start(world.Spec{Engine: "sherpa", Balancer: "priority", Endpoints: []world.Endpoint{
-		{Name: "slow", URL: b.URL(), Type: "ollama", Priority: 100, CheckInterval: 30 * time.Second, CheckTimeout: 8 * time.Second}}})
+		{Name: "slow", URL: b.URL(), Type: "ollama", Priority: 100, CheckInterval: cInterval, CheckTimeout: cTimeout}}})
 	if err != nil {
 		run.Inconclusive("world failed to start: " + err.Error())
 		return
@@ -564,30 +570,34 @@ func slowOkWithinTimeout(run *rep.Run) {
 	var answered atomic.Int64
 	b.Backend.SetHandler(func(r *backend.Record) *backend.Resp {
 		if r.Path == backend.StdHealthPath {
-			time.Sleep(5500 * time.Millisecond)
+			time.Sleep(answerAfter)
 			answered.Add(1)
 			return &backend.Resp{Status: 200, Body: []byte(`{"status":"ok"}`)}
 		}
 		return &backend.Resp{Status: 200, Body: backend.ModelsJSON([]string{"m"}), Headers: [][2]string{{"Content-Type", "application/json"}}}
 	})
-	w.Health().VerifShift(40 * time.Second)
+	w.Health().VerifShift(cInterval + 10*time.Second)
 	t0 := time.Now()
 	w.ForceHealth()
 	el := time.Since(t0)
-	run.Eval("slow-ok/check_timeout=8s/answer-after=5.5s")
+	run.Eval(fmt.Sprintf("slow-ok/check_timeout=%s/answer-after=%s", cTimeout, answerAfter))
 	run.Count("slow_ok_cases", 1)
 	ep := w.EndpointByName("slow")
 	if ep == nil {
 		run.Inconclusive("endpoint not found")
 		return
 	}
-	if el > 7500*time.Millisecond {
-		run.Inconclusive("machine too loaded: the 5.5 s answer took " + el.String())
+	if el > cTimeout-500*time.Millisecond {
+		run.Inconclusive(fmt.Sprintf("machine too loaded: the %s answer took %s", answerAfter, el))
 		return
 	}
 	if ep.Status != domain.StatusHealthy {
-		run.Violation("C07/slow-ok/within-check-timeout/not-healthy", fmt.Sprintf("check_timeout 8 s, the backend answered its health check 200 after 5.5 s (the round took %s, %d answers sent), endpoint is %q", el.Round(time.Millisecond), answered.Load(), ep.Status),
-			map[string]any{"check_interval": "30s", "check_timeout": "8s", "answer_after": "5.5s", "status": string(ep.Status), "consecutive_failures": ep.ConsecutiveFailures})
+		k := "C07/slow-ok/within-check-timeout/not-healthy"
+		if ep.Status == domain.StatusBusy {
+			k = "C07/slow-ok/within-check-timeout/marked-busy"
+		}
+		run.Violation(k, fmt.Sprintf("check_timeout %s, the backend answered its health check 200 after %s (the round took %s, %d answers sent), endpoint is %q with %d consecutive failures", cTimeout, answerAfter, el.Round(time.Millisecond), answered.Load(), ep.Status, ep.ConsecutiveFailures),
+			map[string]any{"check_interval": cInterval.String(), "check_timeout": cTimeout.String(), "answer_after": answerAfter.String(), "status": string(ep.Status), "consecutive_failures": ep.ConsecutiveFailures})
 	}
 }
 
